@@ -633,6 +633,12 @@ def fn_round(ex, args, kwargs, line):
     x = args[0]
     nd = args[1] if len(args) > 1 else kwargs.get('decimals', kwargs.get('ndigits', 0))
     nd = ex.concrete_int(nd) if not isinstance(nd, int) else nd
+    if isinstance(x, Arr) and x.ndim == 2:
+        r = Arr(ex.fresh('rounded', x.term.sort), list(x.shape), REAL, 'ndarray', 'rounded')
+        i, j = ex.fresh('i_rnd', INT), ex.fresh('j_rnd', INT)
+        ex.assume_fact(tm.forall([i, j], tm.eq(tm.select(tm.select(r.term, i), j),
+                                               tm.app('round%d' % nd, (tm.select(tm.select(x.term, i), j),), REAL))))
+        return r
     if isinstance(x, Arr):
         return arrays.map1(ex, x, lambda e: tm.app('round%d' % nd, (tm.to_real(e),), REAL))
     return tm.app('round%d' % nd, (tm.to_real(to_term(x)),), REAL)
